@@ -206,3 +206,8 @@ fn c11_o4b_take_until_secure_small() {
     kani::cover!(subnets > 3);
     std::mem::forget(c);
 }
+
+/// Direct construction for harnesses of other modules (caller guarantees the order invariant).
+pub(crate) fn closest_from(target: Id, nodes: Vec<Node>) -> ClosestNodes {
+    ClosestNodes { target, nodes }
+}
